@@ -300,7 +300,11 @@ def baseStep (b : Base) (w : List String) (obs : String) : Base × Seen × List 
       -- the request in flight no longer belongs to the (freshly reset) peripheral
       let out' := if inFlight then b.outstanding.map fun (o, _) => (o, none) else b.outstanding
       ({ b1 with cfg := c, inContract := b.inContract && addrOk c, outstanding := out',
-                 tainted := b.tainted || inFlight || b.dirty }, .resetaddr i a, views)
+                 -- a reset to a fresh, distinct address leaves a clean situation (the reply in flight is simply stale);
+                 -- a reset to the old address or onto another peripheral's address does not
+                 tainted := b.tainted || ((inFlight || b.dirty) &&
+                   ((List.range b.cfg.ps.length).any fun j => (b.cfg.ps.getD j default).addr == a)) },
+       .resetaddr i a, views)
     | _, _ => (b1, .skip, views)
   | ["dp.diagreq", slot] =>
     match slot.toNat? with
